@@ -116,6 +116,7 @@ func runOn(repoDir, tier, id string, env []string) (*core.Run, error) {
 			}
 		}()
 		pr.Rules(p, run)
+		commonRules(p, run, id)
 	}()
 	return run, nil
 }
